@@ -281,6 +281,17 @@ func (q *qCtx) knowledgeAt(t *Trace, i int, facts []Fact) (k qKnow) {
 			}
 		}
 	}
+	for _, f := range facts {
+		for _, pr := range [][2]*Sym{{f.X, f.Y}, {f.Y, f.X}} {
+			if li := q.frontPhiList(pr[0]); li >= 0 && pr[1].isNilConst() && !k.emptyKnown[li] && !mutated[li] && q.latestIsFront(t, i, li) {
+				if f.Op == token.EQL {
+					k.emptyKnown[li], k.empty[li] = true, true
+				} else if f.Op == token.NEQ {
+					k.emptyKnown[li], k.empty[li] = true, false
+				}
+			}
+		}
+	}
 	for li := range q.lists {
 		for _, f := range facts {
 			if _, ismax := isInitOfField(f.X, q.maxs[li]); ismax {
@@ -547,6 +558,9 @@ func (q *qCtx) checkPop(t *Trace, name string, checkClose bool) {
 				frontOK = true
 				break
 			}
+		}
+		if !frontOK && q.frontPhiList(elem) == li && q.latestIsFront(t, ri, li) {
+			frontOK = true
 		}
 		if !frontOK {
 			fail(ri, "the removed element is not list.Front() of that list (evaluated in the same critical section): items do not leave in FIFO order")
@@ -938,4 +952,65 @@ func (q *qCtx) checkCondBinding() {
 		return
 	}
 	c.check(ok, "C13.cond-binding", q.tname, pos, "cond.L = &lock of the same object", "cond.L is not bound to the queue's own mutex: Wait releases a different lock than the one guarding the lists")
+}
+
+// frontPhiList: x is a loop-carried variable all of whose incoming values are Front() of one of the queue's lists
+// (`front := l.Front(); for front == nil && !closed { Wait(); front = l.Front() }`): at every test it holds the
+// latest Front() reading. Returns the list's index, or -1.
+func (q *qCtx) frontPhiList(x *Sym) int {
+	if x == nil || x.Kind != KFresh || x.Name != "loop" {
+		return -1
+	}
+	phi, ok := x.Ref.(*ssa.Phi)
+	if !ok || len(phi.Edges) == 0 {
+		return -1
+	}
+	li := -1
+	for _, ed := range phi.Edges {
+		call, isCall := ed.(*ssa.Call)
+		if !isCall || call.Call.StaticCallee() == nil || call.Call.StaticCallee().String() != "(*container/list.List).Front" || len(call.Call.Args) == 0 {
+			return -1
+		}
+		ld, isLoad := call.Call.Args[0].(*ssa.UnOp)
+		if !isLoad {
+			return -1
+		}
+		fa, isFA := ld.X.(*ssa.FieldAddr)
+		if !isFA {
+			return -1
+		}
+		fv := fieldVar(fa.X.Type(), fa.Field)
+		this := -1
+		for k, l := range q.lists {
+			if sameField(fv, l) {
+				this = k
+			}
+		}
+		if this < 0 || (li >= 0 && li != this) {
+			return -1
+		}
+		li = this
+	}
+	return li
+}
+
+// latestIsFront: going back from event i, the first thing that touches list li or lets others touch it
+// (lock acquisition, Cond.Wait, a mutation of the list) is a Front() reading of it.
+func (q *qCtx) latestIsFront(t *Trace, i, li int) bool {
+	for j := i - 1; j >= 0; j-- {
+		x := t.Events[j]
+		if acq, _, ok := lockOp(x); ok && acq {
+			return false
+		}
+		if x.Kind == EvCall && x.callName() == "(*sync.Cond).Wait" {
+			return false
+		}
+		if q.listCall(x, "Front") == li {
+			return true
+		}
+		if x.Kind == EvCall && strings.HasPrefix(x.callName(), "(*container/list.List).") && !pureContainerMethods[x.callName()] && len(x.Args) > 0 && q.listIndex(x.Args[0]) == li {
+			return false
+		}
+	}
+	return false
 }
